@@ -102,7 +102,11 @@ def check(run, replay, prop):
     # 2. schedules from TLC
     scheds = []
     if replay:
-        scheds = [(replay, "plain")]
+        try:
+            rv = json.load(open(replay)).get("variant", "plain")
+        except Exception:
+            rv = "plain"
+        scheds = [(replay, rv)]
     else:
         def gen(tag, n, depth, **kw):
             out = os.path.join(run.tmp, "sched-%s.ndjson" % tag)
